@@ -170,6 +170,8 @@ def run(chk):
     for order in (['a', 'b'], ['b', 'a']):
         cfgs.append(dict(order=order, att={'a': [], 'b': []}, wrong=[], fail={'a': 'none', 'b': 'none'}, polls=['a', 'b'],
                          writes=['b'], acc={'a': 'init', 'b': 'init'}, exported=['a', 'b'], polldur={'a': 45.0}))
+        cfgs.append(dict(order=order, att={'a': [], 'b': []}, wrong=[], fail={'a': 'none', 'b': 'none'}, polls=['a', 'b'],
+                         writes=['b'], acc={'a': 'init', 'b': 'init'}, exported=['a', 'b'], readdur={'a': 45.0}))
     traces = pool_map(_run, cfgs)
     # thread schedules: the server thread (start loop, start events, shutdown) against the poll threads
     jobs = []
